@@ -596,6 +596,23 @@ func (f *TermFactory) Cmp(op Op, a, b *Term) *Term {
 		if b.IsConst() && a.op == OAdd && a.b.IsConst() {
 			return f.Cmp(OEq, a.a, f.Const(a.w, b.c-a.b.c))
 		}
+		// (x + c1) == (x + c2), (x + c) == x
+		{
+			base := func(t *Term) (*Term, uint64) {
+				if t.op == OAdd && t.b.IsConst() {
+					return t.a, t.b.c
+				}
+				return t, 0
+			}
+			ba, ca := base(a)
+			bb, cb := base(b)
+			if ba == bb && !b.IsConst() {
+				return f.Bool((ca-cb)&mask(a.w) == 0)
+			}
+			if !b.IsConst() && (ca != 0 || cb != 0) && ca == cb {
+				return f.Cmp(OEq, ba, bb)
+			}
+		}
 		if a.id > b.id && !b.IsConst() {
 			a, b = b, a
 		}
